@@ -183,11 +183,8 @@ Proof.
     + pose proof (lincomb_sq s sz z v Hl) as H. rewrite <- Ez, <- Ev in H.
       assert (0 < sz * s) by nra. nra.
 Qed.
-Lemma l2_entry s t x : (let big := if fltb Rops t s then s else t in fsub Rops x (fdiv Rops (fmul Rops x t) big))
-   = (1 - t / (if fltb Rops t s then s else t)) * x.
-Proof. cbn. unfold Rdiv. ring. Qed.
-Lemma l2_prox_scale s t v : l2_prox_with Rops s t v = map (fun x => (1 - t / (if fltb Rops t s then s else t)) * x) v.
-Proof. unfold l2_prox_with. apply map_ext. intros x. cbn. unfold Rdiv. ring. Qed.
+Lemma l2_prox_scale s t v : l2_prox_with Rops s t v = map (fun x => (if fltb Rops t s then 1 - t / s else 0) * x) v.
+Proof. unfold l2_prox_with. destruct (fltb Rops t s); apply map_ext; intros x; cbn; unfold Rdiv; ring. Qed.
 Lemma fltb_R a b : (fltb Rops a b = true /\ a < b) \/ (fltb Rops a b = false /\ b <= a).
 Proof. unfold fltb; cbn. destruct (Rleb b a) eqn:E; [apply Rleb_true in E; right | apply Rleb_false in E; left]; auto. Qed.
 Lemma sq_eq_nonneg a b : 0 <= a -> 0 <= b -> a * a = b * b -> a = b.
@@ -208,14 +205,9 @@ Proof.
     { apply sq_eq_nonneg; [lra | lra |]. rewrite Ex, <- Hc. ring. }
     assert (Hd : (1 - t / s - 1) * (1 - t / s - 1) * (s * s) = t * t) by (field; lra).
     rewrite Hd, Hsx'. pose proof (sq_nonneg (sz - s + t)). nra.
-  - (* s <= t : the result is 0 (or v = 0 when t = 0) *)
-    destruct (Req_dec t 0) as [Z|NZ].
-    + subst t. assert (s = 0) by lra. subst s.
-      assert (sumsq Rops v = 0) by lra. pose proof (sq_nonneg sz).
-      replace ((1 - 0 / 0 - 1) * (1 - 0 / 0 - 1) * (0 * 0)) with 0 by ring. nra.
-    + assert (Hc : 1 - t / t = 0) by (field; lra). rewrite Hc in *.
-      assert (sx = 0). { apply sq_eq_nonneg; [lra | lra |]. rewrite Ex. ring. } subst sx.
-      pose proof (sq_nonneg sz). assert (0 <= sz * (t - s)) by (apply Rmult_le_pos; lra). nra.
+  - (* s <= t : the result is 0 *)
+    assert (sx = 0). { apply sq_eq_nonneg; [lra | lra |]. rewrite Ex. ring. } subst sx.
+    pose proof (sq_nonneg sz). assert (0 <= sz * (t - s)) by (apply Rmult_le_pos; lra). nra.
 Qed.
 Corollary l2_optimal_sqrt t v z : 0 <= t -> length z = length v ->
   let x := l2_prox_with Rops (sqrt (sumsq Rops v)) t v in
